@@ -195,4 +195,25 @@ theorem simStep_newborn_ids (s : Sim) (ev : Events) (i : Nat) :
   rw [List.getElem?_eq_none_iff, Ne, List.getElem?_eq_none_iff, hl]
   omega
 
+/-! ### Conservation of agents over whole runs -/
+
+/-- **Conservation.**  From any population whose active agents are alive with nothing pending, under any events and for any
+    run length: one row per step is recorded, and (active agents at the end) + (all recorded deaths) = (active agents at the
+    start) + (all births).  Nobody is lost or counted twice between creation, the active set and the recorded deaths. -/
+theorem run_conservation (evs : List Events) : ∀ (s : Sim), (∀ a ∈ s.pop, Clean a) →
+    ∃ rs : List Row, (run s evs).rows = s.rows ++ rs ∧ rs.length = evs.length ∧
+      nPresent (run s evs).pop + sumNat (rs.map (·.newDeaths)) = nPresent s.pop + sumNat (evs.map (·.births)) := by
+  induction evs with
+  | nil => intro s _; exact ⟨[], by simp [run], rfl, by simp [run, sumNat]⟩
+  | cons e es ih =>
+      intro s h
+      obtain ⟨r, hr, hflow, hn, hc⟩ := simStep_flow s e h
+      obtain ⟨rs, hrs, hlen, hsum⟩ := ih (simStep s e) hc
+      refine ⟨r :: rs, ?_, by simp [hlen], ?_⟩
+      · show (run (simStep s e) es).rows = _
+        rw [hrs, hr, List.append_assoc]; rfl
+      · show nPresent (run (simStep s e) es).pop + _ = _
+        rw [List.map_cons, List.map_cons, sumNat_cons, sumNat_cons]
+        omega
+
 end StarsimModel.SimCore
